@@ -298,11 +298,22 @@ Print Assumptions C11_step_model_function.
 
 (** ... and the decidable predicate evaluated on an observed history says: at every step the
     long-lived object's value and gradient are those of a freshly built object on the CURRENT
-    surrogate (1e-9), the gradient matches central differences of the current acquisition function,
-    and every acquire call made along the way returned n points of the user's box. *)
+    surrogate, they are mean - sqrt(beta var) and grad_mean - 1/2 grad_var sqrt(beta/var) of the
+    surrogate's current outputs at 1e-9 of their own scale (no absolute term: the same statement for
+    targets of order 1e-4 and 1e4), the gradient matches central differences of the current acquisition
+    function wherever the surrogate's own outputs are numerically self-consistent, and every acquire
+    call made along the way returned n points of the user's box. *)
 Theorem C11_history_ok_sound : forall h, hist_ok h = true -> hist_property h.
 Proof. exact hist_ok_sound. Qed.
 Print Assumptions C11_history_ok_sound.
+
+(** the exact clause: a step that passes the predicate has a gradient within 1e-9 (of the coordinate's
+    scale) of the translated gradient formula -- which C11_lcbsc_gradient_is_derivative proves to be the
+    derivative of the translated value formula -- independently of the finite differences *)
+Theorem C11_step_gradient_is_formula :
+  forall s g, step_ok s = true -> h_grad s = Some g -> grad_rels s g (step_grad s).
+Proof. exact step_ok_gradient_is_formula. Qed.
+Print Assumptions C11_step_gradient_is_formula.
 
 (** ================= the decidable predicates ================= *)
 
@@ -354,14 +365,29 @@ Proof. vm_compute. auto. Qed.
 Example C11_example_history :
   let sq := [(4 # 1, 2 # 1); (1 # 1, 1 # 1); (16 # 1, 4 # 1); (1 # 4, 1 # 2)]%Q in
   let s1 := {| h_beta := 2 # 1; h_mean := 1 # 1; h_var := 2 # 1; h_gmean := [1 # 1]; h_gvar := [2 # 1]; h_sqrt := sq;
-               h_val := Some ((-1) # 1); h_grad := Some [0 # 1]; h_fval := (-1) # 1; h_fgrad := [0 # 1]; h_fd := [0 # 1]; h_fd2 := [0 # 1] |}%Q in
+               h_val := Some ((-1) # 1); h_grad := Some [0 # 1]; h_fval := (-1) # 1; h_fgrad := [0 # 1]; h_fd := [0 # 1]; h_fd2 := [0 # 1]; h_aux := [{| x_h := 1 # 100000; x_rough := 0; x_sm := 1 # 1; x_sv := 2 # 1; x_sm2 := 1 # 1; x_sv2 := 2 # 1 |}] |}%Q in
   let s2 := {| h_beta := 2 # 1; h_mean := 0 # 1; h_var := 8 # 1; h_gmean := [1 # 1]; h_gvar := [2 # 1]; h_sqrt := sq;
-               h_val := Some ((-4) # 1); h_grad := Some [1 # 2]; h_fval := (-4) # 1; h_fgrad := [1 # 2]; h_fd := [1 # 2]; h_fd2 := [1 # 2] |}%Q in
+               h_val := Some ((-4) # 1); h_grad := Some [1 # 2]; h_fval := (-4) # 1; h_fgrad := [1 # 2]; h_fd := [1 # 2]; h_fd2 := [1 # 2]; h_aux := [{| x_h := 1 # 100000; x_rough := 0; x_sm := 1 # 1; x_sv := 2 # 1; x_sm2 := 1 # 1; x_sv2 := 2 # 1 |}] |}%Q in
   let stale := {| h_beta := 2 # 1; h_mean := 0 # 1; h_var := 8 # 1; h_gmean := [1 # 1]; h_gvar := [2 # 1]; h_sqrt := sq;
-               h_val := Some ((-1) # 1); h_grad := Some [0 # 1]; h_fval := (-4) # 1; h_fgrad := [1 # 2]; h_fd := [1 # 2]; h_fd2 := [1 # 2] |}%Q in
+               h_val := Some ((-1) # 1); h_grad := Some [0 # 1]; h_fval := (-4) # 1; h_fgrad := [1 # 2]; h_fd := [1 # 2]; h_fd2 := [1 # 2]; h_aux := [{| x_h := 1 # 100000; x_rough := 0; x_sm := 1 # 1; x_sv := 2 # 1; x_sm2 := 1 # 1; x_sv2 := 2 # 1 |}] |}%Q in
   let h := fun steps => {| hs_names := []; hs_dict := []; hs_mbounds := []; hs_steps := steps; hs_acq := [] |} in
   hist_agree (h [s1; s2]) = true /\ hist_ok (h [s1; s2]) = true
   /\ hist_agree (h [s1; stale]) = false /\ hist_ok (h [s1; stale]) = false.
+Proof. vm_compute. auto. Qed.
+
+(** the same statement at a small scale (wave 3): target values of order 1e-4 (mean 1e-4, variance 4e-10,
+    beta 1): the exact answer [1e-4 - 1/2 * 2e-9 * 5e4 = 5e-5] passes; an answer computed with the variance
+    raised to 1e-6 before the division (second term 1e-6 instead of 5e-5) is rejected by [agree] and by [ok],
+    although it differs from the exact one by less than 5e-5 in absolute terms and the surrogate gives the
+    finite differences no opinion here *)
+Example C11_example_small_scale :
+  let sq := [(4 # 10000000000, 2 # 100000); (2500000000 # 1, 50000 # 1)]%Q in
+  let aux := [{| x_h := 1 # 100000; x_rough := 0; x_sm := 0; x_sv := 0; x_sm2 := 0; x_sv2 := 0 |}]%Q in
+  let st := fun g => {| h_beta := 1 # 1; h_mean := 1 # 10000; h_var := 4 # 10000000000; h_gmean := [1 # 10000];
+               h_gvar := [2 # 1000000000]; h_sqrt := sq; h_val := Some (8 # 100000); h_grad := Some [g];
+               h_fval := 8 # 100000; h_fgrad := [g]; h_fd := [0 # 1]; h_fd2 := [0 # 1]; h_aux := aux |}%Q in
+  step_agree (st (5 # 100000)%Q) = true /\ step_ok (st (5 # 100000)%Q) = true
+  /\ step_agree (st (99 # 1000000)%Q) = false /\ step_ok (st (99 # 1000000)%Q) = false.
 Proof. vm_compute. auto. Qed.
 
 (** Bayesian optimisation of a toy target: batch_size 1, one batch per acquisition, one initial
